@@ -136,9 +136,13 @@ def stepC13 (s : DSt) (ws : List String) : DSt × Resp :=
     let ko := match kvStr rest "ok" with
       | some v => v.toNat!
       | none => k
+    -- the second sketch shares the ceiling and has its own size bound / abundance flag / ksize
+    let onum := match kvStr rest "onum" with
+      | some v => v.toNat!
+      | none => num
     let track := kvGet rest "track" == 1; let otrack := kvGet rest "otrack" == 1
-    let p : Pair := if ty == "tree" then .t ⟨MH.Tree.new num mh track k, MH.Tree.new num mh otrack ko⟩
-      else .v ⟨MH.Vec.new num mh track k, MH.Vec.new num mh otrack ko⟩
+    let p : Pair := if ty == "tree" then .t ⟨MH.Tree.new num mh track k, MH.Tree.new onum mh otrack ko⟩
+      else .v ⟨MH.Vec.new num mh track k, MH.Vec.new onum mh otrack ko⟩
     ({ s with p := p, mol := molOf ((kvStr rest "mol").getD "dna") }, { model := "ok" })
   | ["eq"] =>
     let (p', out) := s.p.step (.cmd .eq)
